@@ -26,7 +26,7 @@ ASSUMPTIONS = [
     'HttpRpc as output protocol writes faults as "code\\n\\nstring" text (documented): detail is not carried and not compared there',
 ]
 REQUIRED_COUNTERS = ('faults_decoded', 'statuses_checked', 'leak_scans', 'foreign_exceptions')
-KINDS = ('soap11', 'soap12', 'xml', 'json', 'yaml', 'msgpack', 'msgpackrpc', 'httprpc-json', 'httprpc')
+KINDS = ('soap11', 'soap12', 'xml', 'json', 'yaml', 'msgpack', 'msgpackrpc', 'httprpc-json', 'httprpc', 'json+list', 'yaml+list', 'msgpack+list')
 DEDICATED = {'toolong': ('RequestTooLongError', 413), 'notfound': ('ResourceNotFoundError', 404),
              'notallowed': ('RequestNotAllowed', 405), 'creds': ('InvalidCredentialsError', 401)}
 
